@@ -224,7 +224,7 @@ impl Prop for C19 {
     fn n_cases(&self, tier: Tier) -> u64 {
         match tier {
             Tier::Quick => 3905,
-            Tier::Thorough => 3905 * 12,
+            Tier::Thorough => 3905 * 100,
         }
     }
 
@@ -599,7 +599,7 @@ impl Prop for C19 {
     }
 
     fn rule(&self) -> String {
-        "A case is one shape of the grid 1..5 axes x lengths 1..5 (3,905 shapes; quick visits each once, thorough 12 times with fresh histories) with, for every axis 0..dims+1 and \
+        "A case is one shape of the grid 1..5 axes x lengths 1..5 (3,905 shapes; quick visits each once, thorough 100 times with fresh histories) with, for every axis 0..dims+1 and \
          every position 0..len+1, a get_axis request, and for every valid (axis, position) a view-iterator call history; plus histories on iter_indices, iter_axis(axis) and \
          iter_frequencies, sum(axis) for every axis, and in-range / out-of-range / wrong-length indexing. A history interleaves next(), len(), size_hint() and clone() and continues \
          1..2*len+4 next() calls past the first None. Every API call is an evaluation; distinct non-trivial = distinct (shape, operation incl. its full history)."
